@@ -917,4 +917,372 @@ pub proof fn T_cov_symmetric(h: MatR, inv: MatR, t: real)
   }
 }
 
+// ---------------------------------------------------------------------------------------- Cauchy-Schwarz, positive semi-definiteness
+pub proof fn lemma_sq_le(t: real, w: real)
+  requires t >= 0real, t * t >= w * w,
+  ensures t >= w,
+{
+  if t < w {
+    assert(w > 0real);
+    assert(w * w > t * t) by(nonlinear_arith) requires w > t, t >= 0real;
+  }
+}
+pub proof fn lemma_cs_step(aa: real, bb: real, c: real, x: real, y: real)
+  requires aa >= 0real, bb >= 0real, c * c <= aa * bb,
+  ensures (c + x * y) * (c + x * y) <= (aa + x * x) * (bb + y * y),
+{
+  let xx = x * x; let yy = y * y; let q = x * y;
+  assert(xx >= 0real) by(nonlinear_arith) requires xx == x * x;
+  assert(yy >= 0real) by(nonlinear_arith) requires yy == y * y;
+  let p = q * q;
+  assert(p >= 0real) by(nonlinear_arith) requires p == q * q;
+  assert(p == xx * yy) by(nonlinear_arith) requires p == q * q, q == x * y, xx == x * x, yy == y * y;
+  let u = aa * yy; let v = bb * xx;
+  assert(u >= 0real) by(nonlinear_arith) requires u == aa * yy, aa >= 0real, yy >= 0real;
+  assert(v >= 0real) by(nonlinear_arith) requires v == bb * xx, bb >= 0real, xx >= 0real;
+  let t = u + v;
+  let d = u - v;
+  assert(d * d >= 0real) by(nonlinear_arith);
+  assert(t * t == d * d + 4real * (u * v)) by(nonlinear_arith) requires t == u + v, d == u - v;
+  let ab = aa * bb;
+  assert(u * v == ab * p) by(nonlinear_arith) requires u == aa * yy, v == bb * xx, ab == aa * bb, p == xx * yy;
+  let cc = c * c;
+  assert(ab * p >= cc * p) by(nonlinear_arith) requires cc <= ab, p >= 0real;
+  let w = 2real * (c * q);
+  assert(w * w == 4real * (cc * p)) by(nonlinear_arith) requires w == 2real * (c * q), cc == c * c, p == q * q;
+  assert(t * t >= w * w);
+  lemma_sq_le(t, w);
+  let lhs = (c + q) * (c + q);
+  assert(lhs == cc + w + p) by(nonlinear_arith) requires lhs == (c + q) * (c + q), cc == c * c, w == 2real * (c * q), p == q * q;
+  let rhs = (aa + xx) * (bb + yy);
+  assert(rhs == ab + u + v + p) by(nonlinear_arith) requires rhs == (aa + xx) * (bb + yy), ab == aa * bb, u == aa * yy, v == bb * xx, p == xx * yy;
+  assert(lhs <= rhs);
+}
+/// (sum a_k b_k)^2 <= (sum a_k^2)(sum b_k^2)
+pub proof fn sum_cauchy_schwarz(n: int, a: spec_fn(int)->real, b: spec_fn(int)->real)
+  ensures
+    sum(n, |k:int| a(k) * b(k)) * sum(n, |k:int| a(k) * b(k)) <= sum(n, |k:int| a(k) * a(k)) * sum(n, |k:int| b(k) * b(k)),
+    sum(n, |k:int| a(k) * a(k)) >= 0real, sum(n, |k:int| b(k) * b(k)) >= 0real,
+  decreases n
+{
+  if n > 0 {
+    sum_cauchy_schwarz(n - 1, a, b);
+    let aa = sum(n - 1, |k:int| a(k) * a(k)); let bb = sum(n - 1, |k:int| b(k) * b(k)); let c = sum(n - 1, |k:int| a(k) * b(k));
+    let x = a(n - 1); let y = b(n - 1);
+    lemma_cs_step(aa, bb, c, x, y);
+    assert(x * x >= 0real) by(nonlinear_arith);
+    assert(y * y >= 0real) by(nonlinear_arith);
+  } else {
+    assert(0real * 0real <= 0real * 0real) by(nonlinear_arith);
+  }
+}
+
+
+/// (H^T H)^-1 is a Gram matrix: inv = G^T G with G = H inv
+pub proof fn lemma_inv_gram(h: MatR, inv: MatR)
+  requires h.wf(), inv.wf(), inv.r == h.c, inv.c == h.c,
+           mmul(mmul(mtr(h), h), inv) == ident(h.c), mmul(inv, mmul(mtr(h), h)) == ident(h.c),
+  ensures inv == mmul(mtr(mmul(h, inv)), mmul(h, inv)),
+{
+  T_cov_symmetric(h, inv, 1real);
+  let g = mmul(h, inv);
+  let ht = mtr(h);
+  lemma_shapes(h, inv); lemma_shapes(ht, h); lemma_shapes(h, h);
+  let m = mmul(ht, h);
+  mtr_mmul(h, inv);                       // g^T = inv^T h^T = inv h^T
+  assert(mtr(g) == mmul(inv, ht));
+  lemma_shapes(inv, ht);
+  // g^T g = (inv h^T)(h inv) = inv (h^T (h inv)) = inv ((h^T h) inv) = inv I = inv
+  mmul_assoc(inv, ht, g);
+  mmul_assoc(ht, h, inv);
+  assert(mmul(ht, g) == ident(h.c));
+  mmul_ident_r(inv);
+}
+/// C13: the covariance s^2 (H^T H)^-1 has a non-negative diagonal and satisfies c_ij^2 <= c_ii c_jj (so correlations lie in [-1, 1])
+pub proof fn T_cov_psd(h: MatR, inv: MatR, s: real)
+  requires h.wf(), inv.wf(), inv.r == h.c, inv.c == h.c,
+           mmul(mmul(mtr(h), h), inv) == ident(h.c), mmul(inv, mmul(mtr(h), h)) == ident(h.c),
+  ensures
+    forall |i:int| 0 <= i < h.c ==> #[trigger] scale(scale(inv, s), s).get(i,i) >= 0real,
+    forall |i:int, j:int| 0 <= i < h.c && 0 <= j < h.c ==>
+      #[trigger] scale(scale(inv, s), s).get(i,j) * scale(scale(inv, s), s).get(i,j) <= scale(scale(inv, s), s).get(i,i) * scale(scale(inv, s), s).get(j,j),
+{
+  lemma_inv_gram(h, inv);
+  let g = mmul(h, inv);
+  lemma_shapes(h, inv);
+  let n = g.r as int;
+  let c = scale(scale(inv, s), s);
+  let t = s * s;
+  assert(t >= 0real) by(nonlinear_arith) requires t == s * s;
+  mat_new_wf(inv.r, inv.c, |i:int,j:int| s * inv.get(i,j));
+  mat_new_wf(inv.r, inv.c, |i:int,j:int| s * scale(inv, s).get(i,j));
+  assert forall |i:int, j:int| 0 <= i < h.c && 0 <= j < h.c implies
+      inv.get(i,j) == sum(n, |k:int| g.get(k,i) * g.get(k,j)) && c.get(i,j) == t * inv.get(i,j) by {
+    let gt = mtr(g);
+    lemma_shapes(g, g);
+    mat_new_wf(gt.r, g.c, |i2:int,j2:int| sum(gt.c as int, |k:int| gt.get(i2,k) * g.get(k,j2)));
+    sum_ext(n, |k:int| gt.get(i,k) * g.get(k,j), |k:int| g.get(k,i) * g.get(k,j));
+    assert(c.get(i,j) == s * (s * inv.get(i,j)));
+    assert(s * (s * inv.get(i,j)) == (s * s) * inv.get(i,j)) by(nonlinear_arith);
+  }
+  assert forall |i:int| 0 <= i < h.c implies #[trigger] c.get(i,i) >= 0real by {
+    let a = |k:int| g.get(k,i);
+    sum_cauchy_schwarz(n, a, a);
+    sum_ext(n, |k:int| a(k) * a(k), |k:int| g.get(k,i) * g.get(k,i));
+    assert(inv.get(i,i) >= 0real);
+    assert(t * inv.get(i,i) >= 0real) by(nonlinear_arith) requires t >= 0real, inv.get(i,i) >= 0real;
+  }
+  assert forall |i:int, j:int| 0 <= i < h.c && 0 <= j < h.c implies #[trigger] c.get(i,j) * c.get(i,j) <= c.get(i,i) * c.get(j,j) by {
+    let fa = |k:int| g.get(k,i); let fb = |k:int| g.get(k,j);
+    sum_cauchy_schwarz(n, fa, fb);
+    sum_ext(n, |k:int| fa(k) * fb(k), |k:int| g.get(k,i) * g.get(k,j));
+    sum_ext(n, |k:int| fa(k) * fa(k), |k:int| g.get(k,i) * g.get(k,i));
+    sum_ext(n, |k:int| fb(k) * fb(k), |k:int| g.get(k,j) * g.get(k,j));
+    let a = inv.get(i,j); let p = inv.get(i,i); let q = inv.get(j,j);
+    assert(a * a <= p * q);
+    assert((t * a) * (t * a) <= (t * p) * (t * q)) by(nonlinear_arith) requires a * a <= p * q, t >= 0real;
+  }
+}
+/// C13: the correlation c_ij / sqrt(c_ii c_jj) lies in [-1, 1] and is 1 on the diagonal (for positive variances);
+/// `r` is any non-negative square root of c_ii c_jj
+pub proof fn T_corr_bounds(cij: real, cii: real, cjj: real, r: real)
+  requires cij * cij <= cii * cjj, r > 0real, r * r == cii * cjj,
+  ensures -1real <= cij / r <= 1real,
+{
+  let q = cij / r;
+  assert(q * r == cij) by(nonlinear_arith) requires q == cij / r, r > 0real;
+  assert(q * q * (r * r) == cij * cij) by(nonlinear_arith) requires q * r == cij;
+  let rr = r * r;
+  assert(rr > 0real) by(nonlinear_arith) requires rr == r * r, r > 0real;
+  assert(q * q <= 1real) by(nonlinear_arith) requires q * q * rr <= rr, rr > 0real;
+  if q > 1real { assert(q * q > 1real) by(nonlinear_arith) requires q > 1real; }
+  if q < -1real { assert(q * q > 1real) by(nonlinear_arith) requires q < -1real; }
+}
+pub proof fn T_corr_diag(cii: real, r: real)
+  requires cii > 0real, r >= 0real, r * r == cii * cii,
+  ensures cii / r == 1real,
+{
+  assert(r == cii) by(nonlinear_arith) requires r >= 0real, cii > 0real, r * r == cii * cii;
+  assert(cii / cii == 1real) by(nonlinear_arith) requires cii > 0real;
+}
+
+// ---------------------------------------------------------------------------------------- minimum norm (C01, rank-deficient case)
+/// frob2 of a column vector as one sum
+pub proof fn frob2_col(v: MatR)
+  requires v.wf(), v.c == 1,
+  ensures frob2(v) == sum(v.r as int, |i:int| v.get(i,0) * v.get(i,0)),
+{
+  reveal_with_fuel(sum, 2);
+  let outer = |j:int| sum(v.r as int, |i:int| v.get(i,j) * v.get(i,j));
+  assert(sum(1, outer) == sum(0, outer) + outer(0));
+}
+/// sum (f - g)^2 = sum f^2 - 2 sum f g + sum g^2
+pub proof fn sum_sq_sub(n: int, f: spec_fn(int)->real, g: spec_fn(int)->real)
+  ensures sum(n, |k:int| (f(k) - g(k)) * (f(k) - g(k))) == sum(n, |k:int| f(k) * f(k)) - 2real * sum(n, |k:int| f(k) * g(k)) + sum(n, |k:int| g(k) * g(k)),
+  decreases n
+{
+  if n > 0 {
+    sum_sq_sub(n - 1, f, g);
+    let a = f(n - 1); let b = g(n - 1);
+    assert((a - b) * (a - b) == a * a - 2real * (a * b) + b * b) by(nonlinear_arith);
+    let sfg = sum(n - 1, |k:int| f(k) * g(k));
+    assert(2real * (sfg + a * b) == 2real * sfg + 2real * (a * b)) by(nonlinear_arith);
+  } else {
+    assert(2real * 0real == 0real) by(nonlinear_arith);
+  }
+}
+/// a sum of non-negative terms that is zero has only zero terms
+pub proof fn sum_nonneg_zero(n: int, f: spec_fn(int)->real)
+  requires forall |k:int| 0 <= k < n ==> #[trigger] f(k) >= 0real, sum(n, f) == 0real,
+  ensures forall |k:int| 0 <= k < n ==> #[trigger] f(k) == 0real,
+  decreases n
+{
+  if n > 0 {
+    sum_nonneg(n - 1, f);
+    assert(f(n - 1) >= 0real);
+    sum_nonneg_zero(n - 1, f);
+  }
+}
+pub proof fn frob2_zero_col(v: MatR)
+  requires v.wf(), v.c == 1, frob2(v) == 0real,
+  ensures v == zeros(v.r, 1),
+{
+  frob2_col(v);
+  let f = |i:int| v.get(i,0) * v.get(i,0);
+  assert forall |i:int| 0 <= i < v.r implies #[trigger] f(i) >= 0real by { assert(v.get(i,0) * v.get(i,0) >= 0real) by(nonlinear_arith); }
+  sum_nonneg_zero(v.r as int, f);
+  assert forall |i:int, j:int| 0 <= i < v.r && 0 <= j < v.c implies #[trigger] v.get(i,j) == zeros(v.r, 1).get(i,j) by {
+    assert(f(i) == 0real);
+    let t = v.get(i,0);
+    assert(t == 0real) by(nonlinear_arith) requires t * t == 0real;
+  }
+  mat_new_wf(v.r, 1, |i:int,j:int| 0real);
+  mat_ext(v, zeros(v.r, 1));
+}
+/// <A y, r> = <y, A^T r>
+pub proof fn dot_adjoint(a: MatR, y: MatR, r: MatR)
+  requires a.wf(), y.wf(), r.wf(), y.c == 1, r.c == 1, y.r == a.c, r.r == a.r,
+  ensures dot(mmul(a, y), r) == dot(y, mmul(mtr(a), r)),
+{
+  let n = a.r as int; let m = a.c as int;
+  let f2 = |i:int, k:int| a.get(i,k) * y.get(k,0) * r.get(i,0);
+  lemma_shapes(a, y); lemma_shapes(mtr(a), r);
+  mat_new_wf(a.r, 1, |i:int,j:int| sum(a.c as int, |k:int| a.get(i,k) * y.get(k,j)));
+  mat_new_wf(a.c, 1, |i:int,j:int| sum(mtr(a).c as int, |k:int| mtr(a).get(i,k) * r.get(k,j)));
+  // lhs = sum_i (sum_k a_ik y_k) r_i
+  let l = |i:int| mmul(a, y).get(i,0) * r.get(i,0);
+  let l2 = |i:int| sum(m, |k:int| f2(i,k));
+  assert forall |i:int| 0 <= i < n implies #[trigger] l(i) == l2(i) by {
+    let h = |k:int| a.get(i,k) * y.get(k,0);
+    sum_scale(m, h, r.get(i,0));
+    let p = |k:int| r.get(i,0) * h(k); let q = |k:int| f2(i,k);
+    assert forall |k:int| 0 <= k < m implies #[trigger] p(k) == q(k) by {
+      assert(r.get(i,0) * (a.get(i,k) * y.get(k,0)) == a.get(i,k) * y.get(k,0) * r.get(i,0)) by(nonlinear_arith);
+    }
+    sum_ext(m, p, q);
+    assert(mmul(a, y).get(i,0) == sum(m, h));
+    assert(sum(m, h) * r.get(i,0) == r.get(i,0) * sum(m, h)) by(nonlinear_arith);
+  }
+  sum_ext(n, l, l2);
+  sum_swap(n, m, f2);
+  // rhs = sum_k y_k (sum_i a_ik r_i)
+  let rr = |k:int| y.get(k,0) * mmul(mtr(a), r).get(k,0);
+  let r2 = |k:int| sum(n, |i:int| f2(i,k));
+  assert forall |k:int| 0 <= k < m implies #[trigger] rr(k) == r2(k) by {
+    let g0 = |i:int| mtr(a).get(k,i) * r.get(i,0);
+    let g = |i:int| a.get(i,k) * r.get(i,0);
+    assert(mmul(mtr(a), r).get(k,0) == sum(n, g0));
+    sum_ext(n, g0, g);
+    sum_scale(n, g, y.get(k,0));
+    let p = |i:int| y.get(k,0) * g(i); let q = |i:int| f2(i,k);
+    assert forall |i:int| 0 <= i < n implies #[trigger] p(i) == q(i) by {
+      assert(y.get(k,0) * (a.get(i,k) * r.get(i,0)) == a.get(i,k) * y.get(k,0) * r.get(i,0)) by(nonlinear_arith);
+    }
+    sum_ext(n, p, q);
+  }
+  sum_ext(m, rr, r2);
+}
+
+
+pub proof fn sum_sq_add(n: int, f: spec_fn(int)->real, g: spec_fn(int)->real)
+  ensures sum(n, |k:int| (f(k) + g(k)) * (f(k) + g(k))) == sum(n, |k:int| f(k) * f(k)) + 2real * sum(n, |k:int| f(k) * g(k)) + sum(n, |k:int| g(k) * g(k)),
+  decreases n
+{
+  if n > 0 {
+    sum_sq_add(n - 1, f, g);
+    let a = f(n - 1); let b = g(n - 1);
+    assert((a + b) * (a + b) == a * a + 2real * (a * b) + b * b) by(nonlinear_arith);
+    let sfg = sum(n - 1, |k:int| f(k) * g(k));
+    assert(2real * (sfg + a * b) == 2real * sfg + 2real * (a * b)) by(nonlinear_arith);
+  } else {
+    assert(2real * 0real == 0real) by(nonlinear_arith);
+  }
+}
+/// Pythagoras for least squares: if x satisfies the normal equations then for every z
+///   |b - A z|^2 = |b - A x|^2 + |A (x - z)|^2
+pub proof fn ls_pythagoras(a: MatR, b: MatR, x: MatR, z: MatR)
+  requires a.wf(), b.wf(), x.wf(), z.wf(), b.c == 1, x.c == 1, z.c == 1, b.r == a.r, x.r == a.c, z.r == a.c,
+           is_zero(mmul(mtr(a), msub(b, mmul(a, x)))),
+  ensures frob2(msub(b, mmul(a, z))) == frob2(msub(b, mmul(a, x))) + frob2(mmul(a, msub(x, z))),
+{
+  let n = a.r as int;
+  let r = msub(b, mmul(a, x)); let e = msub(x, z); let ae = mmul(a, e); let rz = msub(b, mmul(a, z));
+  lemma_shapes(a, x); lemma_shapes(a, z); lemma_shapes(b, mmul(a, x)); lemma_shapes(b, mmul(a, z)); lemma_shapes(x, z); lemma_shapes(a, e);
+  lemma_shapes(mtr(a), r); lemma_shapes(a, a);
+  mmul_msub_r(a, x, z);
+  mat_new_wf(b.r, b.c, |i:int,j:int| b.get(i,j) - mmul(a, x).get(i,j));
+  mat_new_wf(b.r, b.c, |i:int,j:int| b.get(i,j) - mmul(a, z).get(i,j));
+  mat_new_wf(mmul(a,x).r, mmul(a,x).c, |i:int,j:int| mmul(a,x).get(i,j) - mmul(a,z).get(i,j));
+  let f = |i:int| r.get(i,0); let g = |i:int| ae.get(i,0);
+  frob2_col(r); frob2_col(ae); frob2_col(rz);
+  sum_sq_add(n, f, g);
+  sum_ext(n, |i:int| rz.get(i,0) * rz.get(i,0), |i:int| (f(i) + g(i)) * (f(i) + g(i)));
+  sum_ext(n, |i:int| r.get(i,0) * r.get(i,0), |i:int| f(i) * f(i));
+  sum_ext(n, |i:int| ae.get(i,0) * ae.get(i,0), |i:int| g(i) * g(i));
+  // the cross term: <r, A e> = <A e, r> = <e, A^T r> = 0
+  dot_adjoint(a, e, r);
+  let atr = mmul(mtr(a), r);
+  let h = |i:int| e.get(i,0) * atr.get(i,0);
+  assert forall |k:int| 0 <= k < e.r implies #[trigger] h(k) == 0real by {
+    assert(atr.get(k,0) == 0real);
+    assert(e.get(k,0) * 0real == 0real) by(nonlinear_arith);
+  }
+  sum_all_zero(e.r as int, h);
+  assert(dot(e, atr) == 0real);
+  let fg = |i:int| f(i) * g(i); let gf = |i:int| ae.get(i,0) * r.get(i,0);
+  assert forall |i:int| 0 <= i < n implies #[trigger] fg(i) == gf(i) by {
+    assert(r.get(i,0) * ae.get(i,0) == ae.get(i,0) * r.get(i,0)) by(nonlinear_arith);
+  }
+  sum_ext(n, fg, gf);
+  assert(2real * 0real == 0real) by(nonlinear_arith);
+}
+/// C01 (rank-deficient case): among all minimisers of |b - A_eps z|, the literal nalgebra solve formula has the smallest norm
+pub proof fn T_ls_minnorm(a: MatR, u: MatR, s: Seq<real>, vt: MatR, b: MatR, eps: real, z: MatR)
+  requires svd_ok(a, u, s, vt), b.wf(), b.r == a.r, b.c == 1, eps >= 0real, z.wf(), z.r == a.c, z.c == 1,
+           frob2(msub(b, mmul(a_eps(u, s, vt, eps), z))) <= frob2(msub(b, mmul(a_eps(u, s, vt, eps), solve_spec(u, s, vt, b, eps)))),
+  ensures frob2(solve_spec(u, s, vt, b, eps)) <= frob2(z),
+{
+  let k = s.len();
+  let x = solve_spec(u, s, vt, b, eps);
+  let ae = a_eps(u, s, vt, eps);
+  let st = diagm(trunc(s, eps)); let sp = diagm(pinv_diag(s, eps));
+  let ut = mtr(u); let v = mtr(vt);
+  let utb = mmul(ut, b); let p = mmul(sp, utb);
+  ls_normal(u, s, vt, b, eps);
+  lemma_shapes(u, st); lemma_shapes(mmul(u, st), vt); lemma_shapes(ut, b); lemma_shapes(sp, utb); lemma_shapes(v, p); lemma_shapes(vt, vt);
+  mat_new_wf(k, k, |i:int,j:int| if i == j { trunc(s, eps)[i] } else { 0real });
+  mat_new_wf(k, k, |i:int,j:int| if i == j { pinv_diag(s, eps)[i] } else { 0real });
+  let e = msub(x, z);
+  lemma_shapes(x, z); lemma_shapes(ae, e);
+  // 1. A_eps e = 0
+  ls_pythagoras(ae, b, x, z);
+  lemma_frob2_nonneg(mmul(ae, e));
+  frob2_zero_col(mmul(ae, e));
+  // 2. st (vt e) = ut (A_eps e) = 0
+  let y = mmul(vt, e);
+  lemma_shapes(vt, e); lemma_shapes(st, y); lemma_shapes(u, mmul(st, y));
+  mmul_assoc(mmul(u, st), vt, e);
+  mmul_assoc(u, st, y);
+  mmul_assoc(ut, u, mmul(st, y));
+  mmul_ident_l(mmul(st, y));
+  mmul_zero_r(ut, a.r, 1);
+  assert(mmul(st, y) == zeros(k, 1));
+  diagm_mul_l(trunc(s, eps), y);
+  mat_new_wf(y.r, y.c, |i:int,j:int| trunc(s, eps)[i] * y.get(i,j));
+  mat_new_wf(k, 1, |i:int,j:int| 0real);
+  // 3. <x, e> = <v p, e> = <p, vt e> = sum_i pinv_i utb_i y_i = 0
+  dot_adjoint(v, p, e);
+  mtr_mtr(vt);
+  diagm_mul_l(pinv_diag(s, eps), utb);
+  mat_new_wf(utb.r, utb.c, |i:int,j:int| pinv_diag(s, eps)[i] * utb.get(i,j));
+  let h = |i:int| p.get(i,0) * y.get(i,0);
+  assert forall |i:int| 0 <= i < k implies #[trigger] h(i) == 0real by {
+    if s[i] > eps {
+      let ti = trunc(s, eps)[i]; let yi = y.get(i,0);
+      assert(mmul(st, y).get(i,0) == ti * yi);
+      assert(zeros(k, 1).get(i,0) == 0real);
+      assert(yi == 0real) by(nonlinear_arith) requires ti * yi == 0real, ti > 0real;
+      assert(p.get(i,0) * 0real == 0real) by(nonlinear_arith);
+    } else {
+      assert(p.get(i,0) == 0real * utb.get(i,0));
+      assert(0real * utb.get(i,0) == 0real) by(nonlinear_arith);
+      assert(0real * y.get(i,0) == 0real) by(nonlinear_arith);
+    }
+  }
+  sum_all_zero(k as int, h);
+  assert(dot(x, e) == 0real);
+  // 4. |z|^2 = |x - e|^2 = |x|^2 - 2 <x, e> + |e|^2 >= |x|^2
+  let m = a.c as int;
+  let fx = |j:int| x.get(j,0); let fe = |j:int| e.get(j,0);
+  frob2_col(x); frob2_col(z); frob2_col(e);
+  sum_sq_sub(m, fx, fe);
+  mat_new_wf(x.r, x.c, |i:int,j:int| x.get(i,j) - z.get(i,j));
+  sum_ext(m, |j:int| z.get(j,0) * z.get(j,0), |j:int| (fx(j) - fe(j)) * (fx(j) - fe(j)));
+  sum_ext(m, |j:int| x.get(j,0) * x.get(j,0), |j:int| fx(j) * fx(j));
+  sum_ext(m, |j:int| e.get(j,0) * e.get(j,0), |j:int| fe(j) * fe(j));
+  sum_ext(m, |j:int| fx(j) * fe(j), |j:int| x.get(j,0) * e.get(j,0));
+  lemma_frob2_nonneg(e);
+  assert(2real * 0real == 0real) by(nonlinear_arith);
+}
+
 } // verus!
